@@ -1071,6 +1071,12 @@ func (env *Zlisp) LeftBindingPower(sx Sexp) (int, error) {
 			return 0, nil
 		}
 		if found {
+			if op.MunchLeft == nil {
+				// a prefix-only operator (not, for, break, continue) has no
+				// led: it cannot extend the expression on its left, it
+				// starts a new expression (statement).
+				return 0, nil
+			}
 			//Q("LeftBindingPower: found op '%#v', returning op.Bp = %v", op, op.Bp)
 			return op.Bp, nil
 		}
